@@ -34,6 +34,10 @@ CHECKS = {
          "differential execution of TLC-generated cases across six feature builds, each checked against the TLA+ outcome", "6 (C20)"),
  "C14": (MC, "CmdLine.tla defines, for every viable state and partial last item, a lower bound MustOffer (visible names of the active level that extend a fresh prefix and are not already given; subcommand names that extend the typed word) and an upper bound MayOffer (visible matching names of the active or enclosing levels, completer values of the pending argument); TLC checks Must within May and enumerates every (state, partial); each request is run at revision 0 and the candidate set must lie between the bounds, the outcome being completion output.",
          "TLA+ bounds MustOffer/MayOffer model-checked with TLC; replay of every (state, partial) completion request", "6 (C14)"),
+ "C12": (MC, "HelpModel.tla computes Listing(level) from the definition (what must be listed, what must be mentioned nowhere, which names may appear in the item lists); the help of every reachable command level of generated definitions (aliases, hidden items, usage decorations, group headers, choices, adjacent groups, duplicates across alternatives) is tokenised by the harness and TLC compares the token sets and the block order; ListingConsistent is checked on the definitions; acceptance of listed names is C01's replay.",
+         "TLA+ Listing (HelpModel.tla) evaluated by TLC on tokenised real help output of every command level", "6 (C12)"),
+ "C16": ("exploration", "Definitions whose texts carry roff/HTML/markdown metacharacters are rendered with render_markdown/html/manpage; per document TLC checks token coverage of every reachable level against Listing (HelpModel.tla) and accepts or rejects the lexed tag stream (pushdown over bpaf's tag vocabulary, balanced, no stray `<`) and the roff line stream (control lines are bpaf's requests, every backslash one of bpaf's escapes) with Markup.tla.",
+         "TLA+ acceptors (Markup.tla pushdown / line machine, HelpModel.tla listing) validating lexed real documents", "6 (C16)"),
 }
 NOTE = "Bounded: exhaustive within the stated constants, sampled beyond; trusted: TLC, the JSON reader, the dynamic builder (public bpaf API only)."
 
@@ -46,8 +50,10 @@ def main():
                    "baseline_off_cmd": "cd /repo && cargo nextest run --workspace --no-fail-fast --test-threads 8 --offline",
                    "source_commits": hook_commits, "add_only": True},
          "engines": [
-             {"name": "cmdline", "path": "tla/CmdLine.tla", "serves_properties": sorted(set(CHECKS) - {"C07", "C19", "C11"}),
+             {"name": "cmdline", "path": "tla/CmdLine.tla", "serves_properties": sorted(set(CHECKS) - {"C07", "C19", "C11", "C12", "C16"}),
               "kind_free_text": "TLA+ left-to-right acceptor with denotation; TLC design/replay/trace configurations; Rust harness building real bpaf parsers from the same JSON definitions"},
+             {"name": "docs", "path": "tla/HelpModel.tla", "serves_properties": ["C12", "C16"],
+              "kind_free_text": "Listing model of help/documentation (HelpModel.tla) and markup acceptors (Markup.tla); the harness renders and lexes, TLC judges"},
              {"name": "process", "path": "tla/Process.tla", "serves_properties": ["C11"],
               "kind_free_text": "TLA+ protocol of a process built around OptionParser::run(); ProcessTrace validates recorded runs of harness-app"},
              {"name": "groupline", "path": "tla/GroupLine.tla", "serves_properties": ["C07", "C19"],
@@ -62,7 +68,7 @@ def main():
                                 "thorough_cmd": f"bin/check {pid} --tier thorough",
                                 "evidence_file": f"/verif/evidence/{pid}.json",
                                 "replay_cmd_template": f"bin/check {pid} --replay {{path}}",
-                                "engine": "groupline" if pid in ("C07", "C19") else "process" if pid == "C11" else "cmdline",
+                                "engine": "groupline" if pid in ("C07", "C19") else "process" if pid == "C11" else "docs" if pid in ("C12", "C16") else "cmdline",
                                 "level_claimed": {"category": lvl, "text": text, "design_ref": f"DESIGN.md section {ref}"},
                                 "level_note": NOTE, "technique": tech})
         else:
